@@ -11,6 +11,8 @@
 //!              | (flip ID)           a child scope whose cleanup clears a flag, followed by an effect that tracks the flag and holds a
 //!                                    SuspenseTaskGuard for the enclosing boundary while it is alive (a hand-made "busy" indicator):
 //!                                    when the enclosing scope is disposed the cleanup re-runs the effect in the middle of the disposal
+//!              | (wait T B)          a plain scoped task in the current scope that awaits `until_finished()` of boundary B (built before it)
+//!                                    and then logs done:T -- a waiter that survives the disposal of the boundary it waits for
 //!              | (res T N)           create_isomorphic_resource whose fetch is the same body, read once while loading (the read
 //!                                    registers a guard with the enclosing boundary; the guards live in a signal of the scope)
 //!   SCHEDULE ::= ((go T) | (dispose ID) ...)
@@ -59,6 +61,7 @@ struct World {
     gates: BTreeMap<u32, Vec<oneshot::Sender<()>>>, // remaining gates of each task, next first
     probes: BTreeMap<u32, (ReadSignal<bool>, ReadSignal<bool>)>,
     handles: BTreeMap<u32, NodeHandle>,
+    boundaries: BTreeMap<u32, SuspenseScope>,
 }
 
 fn build(nodes: &[Sx], w: &Rc<RefCell<World>>) {
@@ -76,6 +79,7 @@ fn build(nodes: &[Sx], w: &Rc<RefCell<World>>) {
                     w2.borrow_mut().probes.insert(id, (inner, inner));
                     build(&rest, &w2);
                 });
+                w.borrow_mut().boundaries.insert(id, scope);
                 let outer = scope.is_loading();
                 let inner = w.borrow().probes[&id].1;
                 w.borrow_mut().probes.insert(id, (outer, inner));
@@ -109,6 +113,15 @@ fn build(nodes: &[Sx], w: &Rc<RefCell<World>>) {
                 } else {
                     spawn_local_scoped(body);
                 }
+            }
+            "wait" => {
+                let t: u32 = l[1].num();
+                let b: u32 = l[2].num();
+                let scope = *w.borrow().boundaries.get(&b).expect("boundary built before its waiter");
+                spawn_local_scoped(async move {
+                    scope.until_finished().await;
+                    log(format!("done:{t}"));
+                });
             }
             "flip" => {
                 let flag = use_global_scope().run_in(|| create_signal(true)); // the flag outlives the scope that is disposed
